@@ -253,6 +253,10 @@ type BuildOpts struct {
 	// consistent with what every validating node computes from that SlashData.
 	SlashData []byte
 	Replay    bool
+	// DryRun: assemble the block but do not seal/write it and post nothing (used to compare
+	// the mirror with the real worker on the same parent). Must not be used while the
+	// module's evidence pool is non-empty (slashing() would consume it).
+	DryRun bool
 }
 
 // Build mirrors miner/worker.go commitNewWork + commitTransactions + commitTransaction +
@@ -392,6 +396,10 @@ func (n *Node) Build(coinbase common.Address, txs []*types.Transaction, opt Buil
 	block, err := n.Eng.FinalizeAndAssemble(bc, header, st, out.Included, receipts)
 	if err != nil {
 		return nil, err
+	}
+	if opt.DryRun {
+		out.Block, out.Receipts = block, receipts
+		return out, nil
 	}
 	// -- mine + postSeal
 	block, err = n.Eng.Seal(bc, block, nil)
